@@ -238,7 +238,7 @@ func c19Caches(c *eng.Ctx, r *eng.Report, remove *ssa.Function) {
 		if h.Kind != "cache" {
 			continue
 		}
-		if f := h.Instr.(*ssa.Call).Call.StaticCallee(); f != nil && (f.Name() == "Remove" || f.Name() == "Purge" || f.Name() == "Delete" || f.Name() == "Del" || f.Name() == "Reset") {
+		if f := eng.HitCommon(h).StaticCallee(); f != nil && (f.Name() == "Remove" || f.Name() == "Purge" || f.Name() == "Delete" || f.Name() == "Del" || f.Name() == "Reset") {
 			evicted[h.Recv] = true
 		}
 	}
